@@ -164,6 +164,17 @@ macro_rules! define_hasher {
             t: ($word, $word),
         }
 
+        /// Verification hook (only with `--cfg cryptocorrosion_verif`): read / overwrite the bit counter.
+        #[cfg(cryptocorrosion_verif)]
+        impl $name {
+            pub fn verif_counter(&self) -> u128 {
+                ((self.t.1 as u128) << (8 * mem::size_of::<$word>())) | self.t.0 as u128
+            }
+            pub fn verif_set_counter(&mut self, v: u128) {
+                self.t = (v as $word, (v >> (8 * mem::size_of::<$word>())) as $word);
+            }
+        }
+
         impl $name {
             fn increase_count(t: &mut ($word, $word), count: $word) {
                 let (new_t0, carry) = t.0.overflowing_add(count * 8);
